@@ -1165,6 +1165,46 @@ package router
 //@   modifies *
 //@   callsite handleStream: [C15:the-admitted-stream-for-the-charged-client] arg0 == s && arg1 == stream && arg2 == c && arg3 == remoteAddr && arg4 == localAddr
 
+// Closing a listener: the "closed" flag is set BEFORE the socket is closed, so that the accept/read loop that is
+// woken by the close reports an orderly shutdown (errServerClosed) and not a fatal error; every socket the
+// listener owns is closed.
+//@ closure tcpServer.Close$1
+//@   props C18
+//@   requires s != nil && s.l != nil
+//@   ghost nFlag int = 0
+//@   ghost nSock int = 0
+//@   oncall Store: nFlag = nFlag + 1
+//@   oncall Close: nSock = nSock + 1
+//@   modifies nothing
+//@   ensures [C18:flag-then-socket] nFlag == 1 && nSock == 1
+//@   callsite Store: [C18:marked-closed] arg1 == true
+//@   callsite Close: [C18:flag-set-before-the-listener-is-closed] nFlag == 1 && arg0 == s.l
+//@ closure quicServer.Close$1
+//@   props C18
+//@   requires s != nil && s.l != nil
+//@   ghost nFlag int = 0
+//@   ghost nSock int = 0
+//@   oncall Store: nFlag = nFlag + 1
+//@   oncall Close: nSock = nSock + 1
+//@   modifies nothing
+//@   ensures [C18:flag-then-socket] nFlag == 1 && nSock == 1
+//@   callsite Store: [C18:marked-closed] arg1 == true
+//@   callsite Close: [C18:flag-set-before-the-listener-is-closed] nFlag == 1 && arg0 == s.l
+//@ closure udpServer.Close$1
+//@   props C18
+//@   requires s != nil && forall(k, 0, len(s.cs), s.cs[k] != nil && s.cs[k].c != nil)
+//@   ghost nFlag int = 0
+//@   ghost nSock int = 0
+//@   oncall Store: nFlag = nFlag + 1
+//@   oncall Close?: nSock = nSock + 1
+//@   modifies nothing
+//@   ensures [C18:flag-then-every-socket] nFlag == 1 && nSock == len(s.cs)
+//@   callsite Store: [C18:marked-closed] arg1 == true
+//@   callsite Close?: [C18:flag-set-before-the-sockets-are-closed] nFlag == 1
+//@   loop 1:
+//@     modifies nothing
+//@     invariant nFlag == 1 && nSock == rangeindex + 1
+
 // quicServer.run (accept loop): every accepted connection is charged to its REMOTE address; a refused one is
 // closed and never handled.
 //@ func (s *quicServer) run() (err error)
